@@ -87,7 +87,7 @@ func ReadBytesLen(rd io.Reader, maxLength int) (bytes []byte, err error) {
 		return
 	}
 	bytes = make([]byte, length)
-	_, err = rd.Read(bytes)
+	_, err = io.ReadFull(rd, bytes)
 	return
 }
 
@@ -330,7 +330,7 @@ func ReadBytes17(rd io.Reader) ([]byte, error) {
 	}
 
 	b := make([]byte, length)
-	_, err = rd.Read(b)
+	_, err = io.ReadFull(rd, b)
 	return b, err
 }
 
